@@ -71,4 +71,40 @@ def lsHandle {V : Type} (ls : F → Except String V) (st : List (T × Option V))
 def runLs {V : Type} (ls : F → Except String V) (frames : List (F × T)) : List (T × Option V) :=
   frames.foldl (lsHandle ls) []
 
+/-! ### source selection (`pde.visualization.plotting.extract_field(fields, source, 0)`)
+
+  source is None      -> the state itself (must not be a collection)
+  callable(source)    -> source(state)
+  otherwise (an int, 0 INCLUDED) -> state[source] of a collection -/
+
+inductive Source where
+  | asIs
+  | index (k : Nat)
+  | func
+
+/-- state handed to the tracker: a single field or a collection of fields -/
+structure State (F : Type) where
+  isCollection : Bool
+  fields : List F
+
+def extract (src : Source) (g : List F → F) (st : State F) : Except String F :=
+  match src with
+  | .asIs => if st.isCollection then .error "TypeError" else
+      match st.fields with
+      | f :: _ => .ok f
+      | [] => .error "TypeError"
+  | .func => .ok (g st.fields)
+  | .index k => if st.isCollection then
+      match st.fields[k]? with
+      | some f => .ok f
+      | none => .error "IndexError"
+    else .error "TypeError"
+
+/-- length-scale tracker with a source: the selection happens OUTSIDE the exception guard -/
+def lsHandleSrc {V : Type} (src : Source) (g : List F → F) (ls : F → Except String V)
+    (st : List (T × Option V)) (fr : State F × T) : Except String (List (T × Option V)) :=
+  match extract src g fr.1 with
+  | .ok f => .ok (st ++ [(fr.2, valueOrNaN (ls f))])
+  | .error e => .error e
+
 end DV.Tracker
